@@ -172,9 +172,9 @@ def run_case(case) -> Outcome:
     org = 0x018000
     if case["mode"] == "program":
         src = (f"*=0x{org:06x}\n.table 't0.tbl'\n.text '{s0}'\nlb_0:\n.dl lb_0\n{{\n.text '{s1}'\n{{\n.table 't1.tbl'\n.text '{s2}'\nlb_2:\n}}\n"
-               f".text '{s3}'\n}}\n{{\n.text '{s4}'\n}}\n{{\n{{\n.text '{s1}'\n}}\n}}\n.text '{s0}'\nlb_end:\n")
+               f".text '{s3}'\n}}\n{{\n.text '{s4}'\n}}\n{{\n{{\n.text '{s1}'\n}}\n}}\n.text '{s0}'\n.table 't1.tbl'\n.text '{s3}'\n{{\n.text '{s4}'\n}}\nlb_end:\n")
         e0 = T.encode(entries, s0)
-        seq = [e0, None, T.encode(entries, s1), T.encode(other, s2), T.encode(entries, s3), T.encode(entries, s4), T.encode(entries, s1), e0]
+        seq = [e0, None, T.encode(entries, s1), T.encode(other, s2), T.encode(entries, s3), T.encode(entries, s4), T.encode(entries, s1), e0, T.encode(other, s3), T.encode(other, s4)]
         expected = bytearray()
         addr = org
         lab = {}
@@ -195,7 +195,7 @@ def run_case(case) -> Outcome:
         if got != bytes(expected):
             # attribute
             pos = 0
-            names = ["root .text", "self-pointer (occupied size)", "inherited .text", "overriding .table", "after inner override", "sibling block", "two levels below the table", "root again"]
+            names = ["root .text", "self-pointer (occupied size)", "inherited .text", "overriding .table", "after inner override", "sibling block", "two levels below the table", "root again", "after a second .table in the same scope", "block after the second .table"]
             culprit = "length"
             for nm, chunk in zip(names, [e0, b"\0\0\0"] + seq[2:]):
                 n = len(chunk)
